@@ -82,6 +82,9 @@ func (w *Worker) intrinsicFiles(s *State, f *Frame, name string, fn *ssa.Functio
 // intrinsicEnv: verifrt functions of the modelled environments.
 func (w *Worker) intrinsicEnv(s *State, f *Frame, name string, args []Value, adv func(Value) bool) bool {
 	switch name {
+	case "RedirectCall":
+		s.ghost["redirect/"+args[0].(string)] = args[1].(Iface).v
+		return adv(nil)
 	case "HookCall":
 		s.ghost["hook/"+args[0].(string)] = args[1]
 		return adv(nil)
